@@ -109,7 +109,8 @@ class HistGen:
         elif k == "setcounter":
             out.append(f"setcounter {c} {r.choice([0, 1, 98, 99, 100, 148, 149, 150, 1000])}")
         elif k == "reopen":
-            out.append("reopen")
+            # close-and-reopen, or hand over to another server instance on the same directory
+            out.append("reopen" if self.rng.random() < 0.6 else f"inst {self.rng.randrange(3)}")
         self.stats["op." + k] += 1
         return out
 
